@@ -10,8 +10,9 @@ def Comm (o₁ o₂ : FsOp δ) : Prop := ∀ s : Tree δ, o₁.apply (o₂.apply
 /-- The two operations touch no common entry. -/
 def Apart (o₁ o₂ : FsOp δ) : Prop := ∀ e, e ∈ o₁.touches → e ∉ o₂.touches
 
-theorem apply_untouched (o : FsOp δ) (s : Tree δ) (x : WPath δ) (h : x ∉ o.touches) : o.apply s x = s x := by
+theorem apply_untouched (o : FsOp δ) (s : Tree δ) (x : Entry δ) (h : x ∉ o.touches) : o.apply s x = s x := by
   cases o with
+  | createNew e => simp [FsOp.touches] at h; simp [FsOp.apply, h]
   | unlink e => simp [FsOp.touches] at h; simp [FsOp.apply, h]
   | write e b => simp [FsOp.touches] at h; simp [FsOp.apply, h]
   | rename a b =>
@@ -22,9 +23,13 @@ theorem apply_untouched (o : FsOp δ) (s : Tree δ) (x : WPath δ) (h : x ∉ o.
     | some v => simp [h.1, h.2]
 
 /-- What an operation leaves at the entries it touches depends on those entries only. -/
-theorem apply_congr (o : FsOp δ) (s s' : Tree δ) (h : ∀ e ∈ o.touches, s e = s' e) (x : WPath δ)
+theorem apply_congr (o : FsOp δ) (s s' : Tree δ) (h : ∀ e ∈ o.touches, s e = s' e) (x : Entry δ)
     (hx : x ∈ o.touches) : o.apply s x = o.apply s' x := by
   cases o with
+  | createNew e =>
+    simp [FsOp.touches] at hx
+    have he : s e = s' e := h e (by simp [FsOp.touches])
+    simp [FsOp.apply, hx, he]
   | unlink e => simp [FsOp.touches] at hx; simp [FsOp.apply, hx]
   | write e b => simp [FsOp.touches] at hx; simp [FsOp.apply, hx]
   | rename a b =>
